@@ -83,6 +83,7 @@ R2_TABLE = [
     ('crate::predefined_node::', ''),
     ('crate::tracker::', ''),
     ('crate::choices::', ''),
+    ('crate::rule::', ''),
     ('crate::', ''),
     ('$crate::', ''),
 ]
